@@ -9,7 +9,7 @@ from vflib import core, simrun
 from simnet import hostile, kernel, mclient, proto, scen
 from simnet.scen import US
 
-CLASSES = ["arbitrary", "dns", "tunnel", "tunnel_auth", "raw", "raw_auth", "tun"]
+CLASSES = ["arbitrary", "dns", "tunnel", "tunnel_auth", "raw", "raw_auth", "tun", "up_stream"]
 
 
 def setup_state(sim, S, state, rng, k):
@@ -84,6 +84,44 @@ def _may_name(d, dl, avoid):
     return c in b"lnpisor" and any(ch not in proto.B32 and ch not in proto.B32.upper() for ch in pos)
 
 
+def _max_chunk(S):
+    """Largest upstream payload that still fits one query name with the session's current codec."""
+    n = 220
+    while n > 1:
+        try:
+            if len(proto.encode_name(proto.msg_data(S.domain, b"0aaaa", S.up.encode(b"\xff" * n)))) <= 255:
+                return n
+        except ValueError:
+            pass
+        n -= 1
+    return 1
+
+
+def up_stream_burst(S, k, rng, st, sizes=(16, 48, 64)):
+    """The logged-in hostile session sends one upstream packet that never ends: maximal fragments, one sequence number,
+    the 4-bit fragment number cycling (or jumping), the 'last' bit never set, a fresh name each time.  However many
+    arrive, the server's reassembly buffer (64 KB) must hold."""
+    if "seq" not in st or st["sent"] > st["goal"]:
+        st["seq"] = (S.up_seq + rng.choice([1, 2, 5])) & 7
+        S.up_seq = st["seq"]
+        st["frag"] = 0
+        st["sent"] = 0
+        st["goal"] = rng.choice([70000, 70000, 140000])
+        st["fill"] = rng.choice([b"\x7f", b"\xff", b"\x00", None])
+        st["order"] = rng.choice(["cycle", "cycle", "jump"])
+        st["n"] = _max_chunk(S)
+    for _ in range(rng.choice(sizes)):
+        chunk = st["fill"] * st["n"] if st["fill"] else bytes(rng.getrandbits(8) for _ in range(st["n"]))
+        S.query(S.data_labels(st["seq"], st["frag"], 0, chunk))
+        st["sent"] += len(chunk)
+        st["count"] = st.get("count", 0) + 1
+        if st["order"] == "cycle":
+            st["frag"] = (st["frag"] + 1) & 15
+        else:
+            st["frag"] = (st["frag"] + rng.choice([1, 1, 3, 15])) & 15
+        k.run(k.now + rng.choice([50, 200, 1000]))
+
+
 STATES = ["after_login", "lazy_held", "mid_upstream", "mid_downstream", "queue_full", "realsoon", "raw", "codec128", "codec64", "big_frag"]
 
 
@@ -130,6 +168,7 @@ def one_run(params):
         out_uids = (S.userid,) if params["opt_c"] else (H.userid, S.userid)
         sent_classes = {}
         recent = []
+        stream = {}
         for i in range(n):
             if not srv.alive() or k.stalled:
                 break
@@ -147,6 +186,12 @@ def one_run(params):
                 d, src = hostile.raw_shaped(rng, userids=out_uids, avoid=avoid), att
             elif cls == "raw_auth":
                 d, src = hostile.raw_shaped(rng, userids=(S.userid,), avoid=(H.userid,)), S
+            elif cls == "up_stream":
+                if params["state"] == "raw":
+                    d, src = hostile.tunnel_shaped(rng, dl, userids=(S.userid,), avoid=(H.userid,)), S
+                else:
+                    up_stream_burst(S, k, rng, stream, (64,) if len(params["classes"]) == 1 else (2, 8, 16))
+                    d = None
             else:
                 if rng.random() < 0.3 and S.tun_ip:
                     # a well-addressed but oversized / odd packet for the sacrificial session
@@ -229,6 +274,7 @@ def one_run(params):
         out["nontrivial"] = [repr((params["state"], c, params["opt_c"], params["wild"])) for c in sent_classes]
         for c, v in sent_classes.items():
             out["stats"]["sent_" + c] = v
+        out["stats"]["up_stream_fragments"] = stream.get("count", 0)
         out["stats"]["server_replies"] = sum(1 for ev in k.log if ev[1] == "send" and ev[2] == "srv")
         if params["idx"] < 3:
             out["sample"] = {"state": params["state"], "classes": sent_classes, "reply_kinds": sorted(kinds)[:30],
@@ -256,8 +302,9 @@ def run(ctx):
     res = core.Result()
     res.rule = ("scenario = real iodined (ASan+UBSan, random options -c / -b / wildcard domain / netmask) with a healthy "
                 "model-client session and a sacrificial logged-in session placed in one of 10 protocol states, then "
-                "150-600 hostile inputs from 7 generator classes (arbitrary bytes, malformed DNS, tunnel-shaped "
-                "commands from outsiders and from the logged-in address, raw frames from both, hostile tun frames) "
+                "150-600 hostile inputs from 8 generator classes (arbitrary bytes, malformed DNS, tunnel-shaped "
+                "commands from outsiders and from the logged-in address, raw frames from both, hostile tun frames, "
+                "never-ending upstream packets of 70-140 KB in maximal fragments from the logged-in session) "
                 "interleaved with time advances; oracle: no sanitizer report, no exit, no stall, and the healthy "
                 "session still moves a frame each way afterwards. evaluations = hostile inputs delivered. "
                 "non-trivial/distinct = (session state, generator class, -c, wildcard) combinations that completed with the probe passing.")
@@ -267,8 +314,11 @@ def run(ctx):
     plist = []
     for i in range(n):
         cl = list(CLASSES) if rng.random() < 0.5 else rng.sample(CLASSES, rng.randint(1, 3))
+        focus = rng.random() < 0.08
+        if focus:
+            cl = ["up_stream"]
         plist.append({"idx": i, "seed": ctx.seed * 100000 + i, "rseed": rng.getrandbits(32),
-                      "state": STATES[i % len(STATES)], "classes": cl, "ndgrams": rng.choice([150, 300, 600]),
+                      "state": STATES[i % len(STATES)], "classes": cl, "ndgrams": rng.choice([20, 30]) if focus else rng.choice([150, 300, 600]),
                       "opt_c": rng.random() < 0.3, "opt_b": rng.random() < 0.3, "wild": rng.random() < 0.2,
                       "tun": rng.choice(["10.9.0.1/24", "10.9.0.1/24", "10.9.0.5/28", "172.20.1.1/16", "10.9.0.1/29"])})
     if ctx.replay:
